@@ -47,6 +47,7 @@ def cases(tier, seed):
                    nstores=rnd.randint(1, 3), same_uid=rnd.random() < 0.5,
                    outcome=rnd.choice(['success', 'success', 'warning', 'failure', 'raise']),
                    size=rnd.choice([0, 10, 100, 900, 4000]), fault=fault, align=rnd.random() < 0.35,
+                   mixed_ts=nclients > 1 and rnd.random() < 0.6,
                    seed=seed * 100003 + i)
 
 
@@ -134,16 +135,19 @@ def run_case(case):
                 raise exceptions.EventHandlingError('handler failed')
             return status
 
+        tsl = sorted(TSS.values())
+        client_ts = [rnd.choice(tsl) if case.get('mixed_ts') else ts for _ in range(case['nclients'])]
+        srv_ts = tsl if case.get('mixed_ts') else [ts]
         if case['recv'] == 'dir':
             class Srv(StorageAE):
                 def on_receive_store(self, context, ds):
                     return record(context, ds)
-            srv = world.make_ae(Srv, '/store', 'SRV', 11112, [ts], case['smax'])
+            srv = world.make_ae(Srv, '/store', 'SRV', 11112, srv_ts, case['smax'])
         else:
             class Srv(applicationentity.AE):
                 def on_receive_store(self, context, ds):
                     return record(context, ds)
-            srv = world.make_ae(Srv, 'SRV', 11112, [ts], case['smax'])
+            srv = world.make_ae(Srv, 'SRV', 11112, srv_ts, case['smax'])
         srv.timeout = 600
 
         def store_files(asce, ctx, msg):
@@ -189,6 +193,7 @@ def run_case(case):
             plans.append(stores)
 
         def client(c):
+            ts = client_ts[c]
             cli = world.make_ae(applicationentity.ClientAE, 'CLI%d' % c, [ts], case['cmax'])
             cli.timeout = 600
             cli.add_scu(sopclass.storage_scu, [CT, MR])
@@ -196,7 +201,7 @@ def run_case(case):
                 with cli.request_association({'aet': 'SRV', 'address': ADDR[0],
                                               'port': ADDR[1]}) as assoc:
                     for k, (uid_, sop, ds) in enumerate(plans[c]):
-                        rec = dict(client=c, uid=uid_, sop=sop, data=enc(ds, ts), acked=False)
+                        rec = dict(client=c, uid=uid_, sop=sop, data=enc(ds, ts), acked=False, ts=ts)
                         results.append(rec)
                         scu = assoc.get_scu(sop)
                         if case['source'] == 'file':
@@ -263,8 +268,12 @@ def run_case(case):
             if rec['meta'] is not None:
                 m = rec['meta']
                 g = lambda t: m.get(t, b'').rstrip(b'\0').decode('ascii', 'replace')
-                if g((2, 0x10)) != ts:
-                    v('file-meta-transfer-syntax-wrong', '%r vs %r' % (g((2, 0x10)), ts))
+                if g((2, 0x10)) != r['ts']:
+                    v('file-meta-transfer-syntax-wrong', 'meta says %r, the instance was sent in %r'
+                      % (g((2, 0x10)), r['ts']))
+                if str(rec['ctx'].supported_ts) != r['ts']:
+                    v('handler-context-transfer-syntax-wrong', '%s vs %s' % (
+                        rec['ctx'].supported_ts, r['ts']))
                 if g((2, 3)) != r['uid'] or g((2, 2)) != r['sop']:
                     v('file-meta-uids-wrong', 'meta %r/%r sent %r/%r' % (
                         g((2, 2)), g((2, 3)), r['sop'], r['uid']))
